@@ -210,7 +210,8 @@ func genGb(r *kit.Rand) []string {
 // ---------------------------------------------------------------------------------------------
 // iso cases
 
-var modelledKinds = []string{"sample", "statecount", "wherecount", "evalcount", "alertgt", "alertmod", "sum", "count", "wherenested", "evalnested"}
+var modelledKinds = []string{"sample", "statecount", "wherecount", "evalcount", "alertgt", "alertmod", "sum", "count", "wherenested", "evalnested", "alertnested",
+	"stateduration", "changedetect", "derivative", "derivativenn", "windowc", "windowcfill", "alertthr", "alertthrsco"}
 var opaqueKinds []string
 
 func init() {
@@ -259,6 +260,10 @@ func genIso(r *kit.Rand, kind string, big bool) []string {
 		p2 = r.Intn(p1)
 	case "alertnested":
 		p1 = r.Range(1, 5)
+	case "alertthr", "alertthrsco":
+		p1 = r.Range(0, 5)
+	case "windowc", "windowcfill":
+		p1, p2 = r.Range(1, 4), r.Range(1, 4)
 	case "alertgt":
 		p1 = r.Range(1, 5)
 	case "alertmod":
